@@ -163,3 +163,55 @@ def statements(body):
     for x in walk(body):
         if x.get("e") in ("assign", "assignop"):
             yield x
+
+
+def pat_alts(p):
+    """alternatives of an or-pattern (or the pattern itself)"""
+    while p["p"] == "bind" and p.get("sub"):
+        p = p["sub"]
+    if p["p"] == "or":
+        out = []
+        for a in p["alts"]:
+            out += pat_alts(a)
+        return out
+    return [p]
+
+
+def pat_lits(p):
+    """literal/const values of a (possibly or-) pattern; None for patterns that are not literal"""
+    out = []
+    for a in pat_alts(p):
+        if a["p"] == "expr":
+            v = a["v"]
+            if v.get("e") == "lit":
+                out.append(v["v"])
+            elif v.get("val") is not None:
+                out.append(v["val"])
+            else:
+                out.append(v.get("def"))
+        elif a["p"] == "wild":
+            out.append("_")
+        else:
+            out.append(None)
+    return out
+
+
+def match_arms(m, leaf=lambda n: None):
+    """[(set of ctor names or literals, guard skeleton, body node)] of a match expression"""
+    out = []
+    for arm in m["arms"]:
+        names = []
+        for a in pat_alts(arm["pat"]):
+            c, _ = pat_ctor(a)
+            if c:
+                names.append(c.split("::")[-1])
+            elif a["p"] == "expr" and a["v"].get("e") == "lit":
+                names.append(a["v"]["v"])
+            elif a["p"] == "wild":
+                names.append("_")
+            elif a["p"] == "bind":
+                names.append("_bind")
+            else:
+                names.append(a["p"])
+        out.append((names, skeleton(arm["guard"], leaf) if arm.get("guard") else None, arm["body"]))
+    return out
